@@ -357,8 +357,12 @@ Proof. intros H. induction H as [|x xs H1 _ IH]; cbn [map]; [reflexivity|]. rewr
 Lemma Forall_dues c payable rs : Forall (at_exp c) (map (due_amount c payable) rs).
 Proof. induction rs as [|r rs IH]; cbn [map]; constructor; [unfold at_exp, due_amount; apply rescale_exp|exact IH]. Qed.
 
-Theorem currency_rule_readds d t :
-  currency_doc_wf d -> calculate d = Totals t -> currency_identities d t.
+(* the identities, plus how the presented advance and due rows were obtained (used by C04's fixpoint) *)
+Lemma currency_rule_full d t :
+  currency_doc_wf d -> calculate d = Totals t ->
+  currency_identities d t /\
+  t_adv_rows t = map (advance_amount (d_c d) (t_twt t)) (d_advances d) /\
+  t_dues t = map (due_amount (d_c d) (t_payable t)) (d_dues d).
 Proof.
   intros (Hcr & Hitems & Hadv & Hrnd) H. unfold calculate in H. rewrite Hcr in H.
   set (c := d_c d) in *.
@@ -434,6 +438,7 @@ Proof.
   assert (OC : oexp_ok c charge) by (destruct charge; [apply HC|exact I]).
   rewrite (RO discount OD), (RO charge OC), (RO included EI).
   rewrite (map_rescale_id c advs HA).
+  split; [|split; reflexivity].
   split; [exact HP1|]. split; [rewrite Esum; reflexivity|].
   split; [rewrite HP2, Esum; reflexivity|].
   split; [exact OD|]. split; [exact OC|]. split; [exact EI|]. split; [exact ETa|].
@@ -448,3 +453,7 @@ Proof.
   split; [exact HA|]. split; [apply Forall_dues|].
   split; apply Forall_present_ddc.
 Qed.
+
+Theorem currency_rule_readds d t :
+  currency_doc_wf d -> calculate d = Totals t -> currency_identities d t.
+Proof. intros W H. exact (proj1 (currency_rule_full d t W H)). Qed.
